@@ -4,6 +4,7 @@ import (
 	"encoding/json"
 	"errors"
 	"fmt"
+	"log/slog"
 	"os"
 	"reflect"
 	"strings"
@@ -181,7 +182,22 @@ func runUMFull(c UCase) (Case, unmarshaler.UnmarshaledError) {
 	// repeat: unmarshaling the same input again must succeed or fail alike with identical observable state
 	stable := true
 	first := ""
-	for rep := 0; rep < 6 && panicked == ""; rep++ {
+	// a definition carrying two keys of one name: which of them binds must not depend on map
+	// iteration order (F10) - Go reverses a two-entry map in roughly one iteration out of eight,
+	// so many more repetitions are needed to see it
+	reps := 6
+	for _, d := range c.Cfg.Defs {
+		names := map[string]bool{}
+		for _, ki := range d.Keys {
+			if ki >= 0 && ki < len(keyPool) {
+				if names[keyPool[ki].Name] {
+					reps = 64
+				}
+				names[keyPool[ki].Name] = true
+			}
+		}
+	}
+	for rep := 0; rep < reps && panicked == ""; rep++ {
 		func() {
 			defer func() { _ = recover() }()
 			var r2 unmarshaler.UnmarshaledError
@@ -253,6 +269,14 @@ func runUMFull(c UCase) (Case, unmarshaler.UnmarshaledError) {
 				}()
 				resCoq = "(Some " + w.orerrCoq(res) + ")"
 				obsStr = fmt.Sprintf("ok kind=%q msg=%q", res.Kind(), res.Error())
+				// inspecting the result (typed lookups through every pool key, declared or not, on
+				// every restored node; renderers) must leave its observable state as it was
+				before := w.orerrRaw(res)
+				inspectRestored(res, 0)
+				if after := w.orerrRaw(res); after != before {
+					stable = false
+					obsStr += " | INSPECTION CHANGED THE RESULT"
+				}
 			}()
 		}
 	}
@@ -282,6 +306,39 @@ func runUMFull(c UCase) (Case, unmarshaler.UnmarshaledError) {
 	}
 	return Case{Coq: coq, Desc: mustJSON(c), Tags: tags, Size: docSize(c.Doc) + len(c.Cfg.Defs), Nontrivial: c.Doc != nil && (len(c.Doc.Fields) > 0 || len(c.Doc.Causes) > 0),
 		Class: cls + "/" + class, Summary: sum, Observed: obsStr}, res
+}
+
+// inspectRestored reads a restored error in every way a caller can: typed extractors and
+// Fields().Get through every pool key, FindKeys, renderers; recursively on restored causes.
+func inspectRestored(e error, depth int) {
+	if e == nil || depth > 6 {
+		return
+	}
+	func() {
+		defer func() { _ = recover() }()
+		if de, ok := e.(errdef.Error); ok {
+			fs := de.Fields()
+			for _, ke := range keyPool {
+				func() {
+					defer func() { _ = recover() }()
+					_, _ = ke.Ext(e)
+					_, _ = fs.Get(ke.Key)
+					_ = fs.FindKeys(ke.Name)
+				}()
+			}
+			_ = fmt.Sprintf("%+v", e)
+			_, _ = json.Marshal(e)
+			_ = slog.AnyValue(e).Resolve()
+		}
+	}()
+	switch u := e.(type) {
+	case interface{ Unwrap() []error }:
+		for _, c := range u.Unwrap() {
+			inspectRestored(c, depth+1)
+		}
+	case interface{ Unwrap() error }:
+		inspectRestored(u.Unwrap(), depth+1)
+	}
 }
 
 // deepView renders a DecodedData tree by value (pointers followed) for the "input unchanged" comparison.
